@@ -90,6 +90,7 @@ Dis(what) == Report([t |-> "DISAGREE", prop |-> Prop, what |-> what, id |-> Obs[
 ExhaustiveSound ==
   (st = "run" /\ Prop = "C09" /\ CanonNow(can)) =>
      /\ (mon.ob => ImplAcc) \/ Dis("unmatched_descendant")
+     /\ (mon.obR => ImplAcc) \/ Dis("unmatched_descendant_of_root_path")
      /\ (mon.obE => ImplAcc) \/ Dis("unmatched_descendant_of_empty_path")
 
 (* C10: an accepted canonical path (rooted iff the pattern is) has a depth inside the bounds *)
